@@ -990,6 +990,7 @@ static uint64_t drawTable(ompl::RNG &r, int skew)
 // runs in a FRESH process (see main): the seed is set before any generator exists
 static void c20Case(Sink &sink, const Args &a, long c)
 {
+    vf::perturbHeapHistory();
     const auto &R = registry();
     std::vector<const PInfo *> single;
     for (auto &p : R)
@@ -1058,8 +1059,11 @@ static void c20Case(Sink &sink, const Args &a, long c)
     const PInfo &pi = *single[c % (nplan + 1)];
     sink.subject(pi.name);
     long widx = c / (nplan + 1);
-    static const int KINDS[] = {K_R2, K_SE2, K_SE3, K_R3};
-    int kind = KINDS[widx % 4];
+    // (the weighted compound has a zero-weight component in half of its worlds: every state carries a coordinate that no
+    // distance sees - a sampler or copy that leaves it unwritten makes the result depend on what the heap held before)
+    static const int KINDS[] = {K_R2, K_SE2, K_SE3, K_CMP, K_R3, K_CMP};
+    int kind = KINDS[widx % 6];
+    zeroWeightCmpFraction() = 0.5;
     uint64_t wseed = hmix(hmix(splitmix(a.seed), 0xC20), widx);
     auto w = makeWorld(wseed, kind, false);
     w->rangeMode = 0;
@@ -1116,7 +1120,7 @@ int main(int argc, char **argv)
     {
         long nsingle = 0;
         for (auto &p : registry()) nsingle += !p.mt;
-        total = (nsingle + 1) * (a.thorough() ? 40 : 8);
+        total = (nsingle + 1) * (a.thorough() ? 42 : 12);
         fn = c20Case;
     }
     else
